@@ -104,7 +104,8 @@ def run(ctx):
                 einfo = [c["einfo"][0], c["einfo"][1] + shift, c["einfo"][2]] if c["einfo"] else []
                 # under quiet grass does not evaluate @debug/@warn operands at all, so an error inside one may
                 # legitimately not happen; C19 only demands silence there
-                rec = record(i, j, x, expect=("any" if j.get("quiet") else c["k"]), einfo=einfo, explog=explog)
+                # ... and with the operand skipped a LATER error of the program may be the one reported: no expectation on which
+                rec = record(i, j, x, expect=("any" if j.get("quiet") else c["k"]), einfo=([] if j.get("quiet") else einfo), explog=explog)
             else:
                 rec = record(i, j, x)
             if rec["outcome"] == "error" or rec["log"]:
